@@ -108,7 +108,9 @@ def simple_family(draw, max_calls=3, with_metrics=None):
             call["boundary"] = _spell(draw, st.sampled_from(RULES), names)
             call["fill_value"] = _spell(draw, fills, names)
             if kind == "weighted":
-                call["metric_weighted"] = {n: [n] for n in op_axes}
+                # the documented spellings: per-axis mapping to a tuple of axes or to a single axis name, or (one axis) the name alone
+                sp = draw(st.sampled_from(["dict-of-lists", "dict-of-str", "str"] if len(op_axes) == 1 else ["dict-of-lists", "dict-of-str"]))
+                call["metric_weighted"] = {n: [n] for n in op_axes} if sp == "dict-of-lists" else ({n: n for n in op_axes} if sp == "dict-of-str" else op_axes[0])
             if len(op_axes) == 1 and draw(st.booleans()):
                 call["axis"] = op_axes[0]
         elif kind == "derivative":
@@ -238,7 +240,38 @@ def equiv_family(draw):
 
 
 @st.composite
+def ufunc_multi_input(draw):
+    """Two inputs on disjoint axes - the second brings two axes no earlier input has - combined into one output."""
+    axes = ["X", "Y", "Z"]
+    n = {a: draw(st.integers(2, 3)) for a in axes}
+    positions = {a: ["center"] + sorted(draw(st.sets(st.sampled_from(["left", "right"]), max_size=1))) for a in axes}
+    dims, coords, gcoords = {}, {}, {}
+    for a in axes:
+        gcoords[a] = {}
+        for p in positions[a]:
+            d = dtok(a, p)
+            dims[d] = n[a]
+            coords[d] = {"values": None, "attrs": {}}
+            gcoords[a][p] = d
+    dummies = list(draw(st.permutations(DUMMY_TOKS)))
+    real = list(draw(st.permutations(axes)))
+    pos = {d: draw(st.sampled_from(positions[r])) for d, r in zip(dummies, real)}
+    sig = {"in": [[[dummies[0], pos[dummies[0]]]], [[dummies[1], pos[dummies[1]]], [dummies[2], pos[dummies[2]]]]],
+           "out": [[[d, pos[d]] for d in dummies]]}
+    d0 = [dtok(real[0], pos[dummies[0]])]
+    d1 = draw(gen.permutations_of([dtok(real[1], pos[dummies[1]]), dtok(real[2], pos[dummies[2]])]))
+    arrays = {"A0": {"dims": d0, "values": draw(gen.data_values([dims[d] for d in d0], elements=ints)), "name": "PHI"},
+              "A1": {"dims": d1, "values": draw(gen.data_values([dims[d] for d in d1], elements=ints)), "name": None}}
+    call = {"fn": "ufunc", "sig": sig, "das": ["A0", "A1"], "axis": [[real[0]], [real[1], real[2]]], "bw": None, "combine": "outer",
+            "via": draw(st.sampled_from(["apply", "decorator"]))}
+    return {"family": "ufunc", "dims": dims, "coords": coords, "vars": {}, "grid": {"coords": gcoords, "periodic": False}, "arrays": arrays,
+            "calls": [call]}
+
+
+@st.composite
 def ufunc_family(draw):
+    if draw(st.integers(0, 2)) == 0:
+        return draw(ufunc_multi_input())
     n = {"X": draw(st.integers(3, 4)), "Y": draw(st.integers(3, 4))}
     positions = {a: ["center"] + sorted(draw(st.sets(st.sampled_from(["left", "right"]), min_size=1))) for a in "XY"}
     dims, coords, gcoords = {}, {}, {}
